@@ -125,7 +125,7 @@ _M("c14_msg_dst_nackfrag2_32_0_be", "INFO_DST, NACK_FRAG, NACK_FRAG", "BE, num_b
 _bo = "rtps::submessage::verif_harness_c14_bodies"
 _BODY = ("%s: body bytes written == %s; read(write(m)) == m field by field; write(read(b)) == b (the PARSED value re-serialises to "
          "the same bytes)%s")
-_CS = "; create_submessage: content_length == body bytes, multiple of 4, framed kind / flags / length bytes agree with the body"
+_CS = "; create_submessage: content_length == body bytes, multiple of 4 (the framed form is decided by the c14_msg_* harnesses)"
 _bodies = []
 _QB = {"c14_gap_roundtrip_33_be", "c14_acknack_roundtrip_33_le", "c14_nackfrag_roundtrip_1_be"}
 for kind, size, grid in (("gap", "28 + 4*ceil(num_bits/32)", ((0, "le"), (1, "be"), (32, "le"), (33, "be"))),
@@ -165,16 +165,37 @@ PROP = {
                 "NumberSet bases within 256 of the numeric maximum (iterator addition would overflow)",
                 "from_base_and_set with min(S) < base (no caller in RustDDS does that; the function then moves the base down)",
                 "iterator positions 1..221 of the 255/256-bit windows (positions 0 and the last 33 are decided; all positions for <= 33 bits)",
-                "NOT YET BUILT in this revision: body round trips of Gap / AckNack / NackFrag / HeartbeatFrag / Info* / Header / "
-                "Locator, read side of Data / DataFrag / ParameterList, MessageBuilder and whole-Message framing",
+                "NOT YET DECIDED: whole messages containing DATA / DATA_FRAG ([INFO_TS, DATA, HEARTBEAT], [INFO_TS, DATA_FRAG]: harnesses "
+                "c14_msg_ts_data*_hb_* / c14_msg_ts_datafrag_* exist in c14_msg.rs but are not registered: > 7 GB after 9 min), read side of "
+                "Data / DataFrag / ParameterList (Data::deserialize_data(write(d)) == d), InfoReply / Locator (RustDDS never emits INFO_REPLY)",
+                "Message::read_from_buffer itself on messages of MORE than one submessage (its error path drops the partly built Vec<Submessage>, "
+                "whose drop glue CBMC explores for every submessage kind: did not finish in 600 s, same observation as C06); multi-submessage "
+                "messages are parsed by Header::read_from_buffer + the real Submessage::read_from_buffer at every boundary instead; the real "
+                "Message::read_from_buffer is decided on the single-submessage shapes c14_msg_hb_*",
+                "re-serialising a parsed WHOLE message (write(read(b)) == b) is decided per body (c14_*_roundtrip re-serialise the parsed value), "
+                "not per message: the parsed Submessage's niche-encoded enum discriminants are not constants for CBMC after the move out of "
+                "Result<Option<Submessage>>, Writable for Message is then explored for every kind at every position (no result in 600 s)",
+                "whole messages: symbolic flag bits other than the byte order (one instance per flag combination used by Writer / Reader), "
+                "more than 3 submessages, messages > 135 bytes",
                 "security submessages (C16), vendor-specific kinds"],
     "assumptions": ["std BTreeSet replaced by the array-backed shim under cfg(kani) in from_base_and_set harnesses",
+                    "c14_msg_* and the number-set bodies of c14_bodies.rs, under Kani only (native replay runs the originals): speedy's "
+                    "read_from_buffer_with_ctx / write_to_vec_with_ctx entry points are redirected to a plain slice reader / Vec writer "
+                    "(integer positions, ONE write pass instead of speedy's size pass + write pass, capacity 192 bytes); all RustDDS "
+                    "Readable / Writable impls run unchanged on top",
+                    "c14_msg_*: Vec::push places the elements of a Vec<Submessage> in a typed local array of 4 slots instead of the heap "
+                    "(CBMC loses enum discriminants stored in heap byte arrays); speedy::Writer::write_slice of non-byte elements (only "
+                    "INFO_REPLY locator lists) is a reported FAILURE, not an assumption; the parser input is a Bytes of the STATIC kind over "
+                    "the serialised bytes; the framing bytes (magic, version, kind, flags, octetsToNextHeader) of the parser input are "
+                    "replaced by their expected concrete values AFTER each was asserted equal to it (nothing assumed)",
                     "codec / from_base_and_set harnesses stub Vec::with_capacity, Vec::push, vec![x; n] with concrete-capacity "
                     "versions (<= 96 / 16 / 9 elements): a length that travelled through serialised bytes is not a constant for CBMC",
                     "write(read(b)) == b is not checked by re-serialising (symbolic sizes): it follows from read(write(s)) == s "
                     "field by field and write_to being a function of those fields"],
     "trusted": ["/verif/shim/collections.rs (BTreeSet stand-in)", "/verif/env/mod.rs Vec stubs", "speedy 0.8.7 reader/writer collectors (encoded as is)"],
-    "explanation": ("C14: the real speedy Writable/Readable impls of SequenceNumber, FragmentNumber, NumberSet, Heartbeat, Data, DataFrag, "
+    "explanation": ("C14: MessageBuilder::{dst_submessage, ts_msg, gap_msg_before, heartbeat_msg, add_header_and_build}, *::create_submessage, Writable for Message / Submessage / "
+                    "SubmessageBody / *Submessage, Submessage::read_from_buffer, Message::read_from_buffer, Gap / AckNack / NackFrag / HeartbeatFrag / Info* / Header codecs; "
+                    "the real speedy Writable/Readable impls of SequenceNumber, FragmentNumber, NumberSet, Heartbeat, Data, DataFrag, "
                     "ParameterList/Parameter (write side) and NumberSet::{iter, from_base_and_set}, Heartbeat::create_submessage, "
                     "Submessage::write_to."),
     "technique": "Kani/CBMC bounded symbolic model checking of the speedy Writable/Readable impls and hand-written decoders over a grid of concrete shapes with symbolic contents",
